@@ -891,6 +891,14 @@ def _start_graph(node, m, start):
         g.triples.append(tuple(start['append']))
     if start.get('strip'):
         g = Graph(list(g.triples), top=g.top)
+    if start.get('implicit'):
+        # a graph built from triples alone: no top is given (it is the source of the first triple) and the first triple need not
+        # be an instance triple - an edge of the top comes first where there is one
+        tr = list(g.triples)
+        k = next((i for i, x in enumerate(tr) if x[0] == g.top and x[1] != ':instance'), None)
+        if k is not None:
+            tr.insert(0, tr.pop(k))
+        g = Graph(tr)
     if start.get('top'):
         g.top = start['top']
     if start.get('copied') == 'deepcopy':
